@@ -84,6 +84,10 @@ CHECKS = {
    tech="source texts built from a TLC-defined token alphabet and token-level mutations of the repository's .vrl programs and stdlib examples; the real compiler's diagnostics are inspected and rendered in worker processes; TLC evaluates label well-formedness and rendering outcomes",
    text="GenTokens.tla defines one representative token per lexer class plus multi-byte and escape-heavy variants. The driver builds every sequence of <= 2 tokens, seeded sequences of 3-7 tokens (with and without separating spaces), the 314 .vrl test programs and ~600 stdlib examples, and seeded token mutations of those (delete, duplicate, swap, replace, inject multi-byte identifiers / fields / strings) - 46k texts at the quick tier. Each is compiled by the real compiler in a killable worker; every diagnostic (errors and warnings) is inspected: TLC requires 0 <= start <= end <= len and both ends on UTF-8 character boundaries for every label, and that Formatter::to_string (plain and coloured) returned.",
    note="trusted: str::is_char_boundary as the definition of a character boundary; the worker protocol; sampling beyond 2-token sequences"),
+ "C04": dict(engine="C", cat="exploration", design="5/C04",
+   tech="three TLC-defined input spaces executed under catch_unwind in killable worker processes (source texts from the token alphabet and corpus mutations; the stdlib call matrix; TLC-generated core programs x events); a `panic` record is explained by no action of any trace specification",
+   text="Everything the other engines execute is run so that a panic becomes a recorded event instead of killing the check: (1) the 46k source texts of C33 are compiled, all their diagnostics rendered (plain and coloured) and accepted programs run; (2) the 45k call tuples of the C03 matrix (all 200 functions, edge and wrong-typed arguments, literal and runtime-typed) are compiled and run; (3) the TLC-generated programs of the C08/C09/C13/C15 grammars run on every event with hooks on. TraceDiag / TraceCalls / TraceCore have no action that accepts a panic, so each one is a C04 witness naming where it happened.",
+   note="trusted: catch_unwind + process isolation see every panic/abort; release-mode build (debug-only overflow checks are not exercised); memory/stack exhaustion out of scope"),
 }
 
 NA = {
